@@ -315,7 +315,7 @@ class Baton(object):
             self.current = self._choose()
             self.cv.notify_all()
 
-    STUCK_AFTER = 6.0
+    STUCK_AFTER = 20.0
 
     def _stuck(self, i):
         # thread `current` was given the turn and did not reach its next scheduling point: all I/O is scripted, so
@@ -676,7 +676,27 @@ def shard_baton(ctx, job):
                       st.sampled_from([0, 0, 1, 2]))
 
     def fn(value):
-        sw = baton_case(value)
+        try:
+            sw = baton_case(value)
+        except Violation as v:
+            if not v.key.endswith('baton:blocked'):
+                raise
+            if v.key in ctx.failures:
+                ctx.failures[v.key]['count'] += 1
+                return
+            # "no progress for 20 s" is a timing signal: it counts only if the very same schedule blocks again
+            # (a loaded machine does not stall the same step twice), and it is not shrunk (each attempt costs 20 s)
+            try:
+                baton_case(value)
+            except Violation as v2:
+                if v2.key.endswith('baton:blocked'):
+                    ctx.fail(v2.key, v2.what + ' [reproduced on a second run of the same schedule]', v2.case)
+                    ctx.case(('baton', value), True, labels=['baton', 'blocked'])
+                    return
+                raise
+            ctx.inconclusive += 1
+            ctx.label('baton-stall-not-reproduced')
+            return
         ctx.case(('baton', value), sw >= 2, labels=['baton', 'k=%d' % value[0], 'own-requests=%d' % value[3], 'switches>=10' if sw >= 10 else 'switches<10'],
                  sample={'associations': value[0], 'variant': value[1], 'order': value[2], 'baton_switches': sw})
     hyp_search(ctx, strat, fn, job['n'], name='C20-baton', max_buckets=3)
